@@ -213,6 +213,13 @@ def gen_c15_spec(rng: random.Random, minutes_max: int) -> Dict[str, Any]:
                 add_at = round(rng.random() * minutes * 60, 3)
             items.append({"id": f"o{sid}", "time_us": T, "tz": rng.choice([None, "utc", "zi"]), "add_at": add_at})
             sid += 1
+        ones = [it_ for it_ in items if "time_us" in it_]
+        if ones and rng.random() < 0.15:
+            # two one-shot schedules with the same time (say, two calls of one task booked for the same instant)
+            twin = dict(rng.choice(ones))
+            twin["id"] = f"o{sid}"
+            sid += 1
+            items.append(twin)
         if rng.random() < 0.15:
             # a schedule whose expression is not a cron expression (a typo in a stored schedule): it is never due, and
             # the other schedules of the source and later polls are not affected
@@ -820,7 +827,9 @@ def gen_c16a(rng: random.Random) -> Dict[str, Any]:
             # the scheduled task name may be a registered task with declared labels (own broker), or a shared task
             "registered": rng.choice([None, None, "own", "shared"]),
             # the same schedule fired again later; pre_send's decision may differ per firing (pause / resume)
-            "refire_cancel": [rng.random() < 0.5 for _ in range(rng.choice([0, 0, 1, 2, 3]))],
+            # (now and then a long run of cancelled firings of one schedule, then one that is not cancelled)
+            "refire_cancel": ([True] * rng.randint(10, 40) + [False]) if rng.random() < 0.04
+            else [rng.random() < 0.5 for _ in range(rng.choice([0, 0, 1, 2, 3]))],
             "delegate_wrap": rng.choice(["coroutine", "future", "awaitable"]),
             # further schedules fired on the same scheduler instance afterwards (state must not carry over)
             "more": [{"sid": f"sch-more-{j}", "task_name": rng.choice(["mod:task", "t", "other"]),
